@@ -224,14 +224,16 @@ func (s *Server) readListener(l net.Listener, am *allocation.Manager) {
 				tlsConnectionState = &cs
 			}
 
-			s.readLoop(NewSTUNConn(conn), am, tlsConnectionState)
+			stunConn := NewSTUNConn(conn)
+			s.readLoop(stunConn, am, tlsConnectionState)
 
-			// Delete allocation
-			am.DeleteAllocation(&allocation.FiveTuple{
+			// Delete the allocation made over this connection (not one that a new connection
+			// from the same address has made meanwhile)
+			am.DeleteAllocationOn(&allocation.FiveTuple{
 				Protocol: allocation.UDP, // fixed UDP
 				SrcAddr:  conn.RemoteAddr(),
 				DstAddr:  conn.LocalAddr(),
-			})
+			}, stunConn)
 
 			if err := conn.Close(); err != nil && !errors.Is(err, net.ErrClosed) {
 				s.log.Errorf("Failed to close conn: %s", err)
